@@ -925,10 +925,22 @@ def search(ctx: Ctx, broken: list) -> None:
         if case and "cycles" in case:
             first.append(case)
     evaluate(ctx, first, tie=False)
-    if any(f.kind == "oracle" for f in ctx.failures):
+    if any(f.kind == "oracle" and f.signature not in (SIG_F2, SIG_STATUS_NULL) for f in ctx.failures):
         return
     cases = grid() + [gen_random(ctx.rng, 9_000_000 + ctx.seed * 1_000_000 + i) for i in range(ctx.budget(12000, 100000))]
     evaluate(ctx, cases, tie=False)
+    if any(f.kind == "oracle" and f.signature not in (SIG_F2, SIG_STATUS_NULL) for f in ctx.failures):
+        return
+    from . import sim_c08
+    firsts = []
+    for b in broken[:10]:
+        rep = b.replay if isinstance(b.replay, dict) else {}
+        sc = (rep.get("input") or {}).get("scenario") or rep.get("scenario")
+        if sc:
+            firsts.append(sc)
+    if firsts:
+        sim_c08.evaluate(ctx, firsts, tie=False)
+    sim_c08.search(ctx)
 
 
 def replay(ctx: Ctx, data: dict) -> None:
